@@ -87,6 +87,8 @@ package sender
 //@ default (*sender.Transfer).
 //@   allows[C06] srcread(h)
 //@   allows[C06] fsread(h) if isSourceFS(h)
+//@ default (*sender.mapStruct).
+//@   allows[C06] srcread(h)
 //@ default (*sender.scopedWalker).
 //@   allows[C06] srcread(h)
 //@   allows[C06] fsread(h) if isSourceFS(h)
